@@ -95,3 +95,88 @@ def nontrivial(d):
             return any(has_ctl(x) for x in s[1])
         return False
     return any(has_ctl(s) for s in f[2])
+
+
+# ---------------------------------------------------------------------------
+# small scope: EVERY program of a small shape (no sampling): [constant prefix] ; loop { two leaf statements } [; one leaf]
+# over three variables.  Shapes random generation reaches only by luck (pair cycles, accumulations, overwrites after a
+# failing loop) are all in here.
+# ---------------------------------------------------------------------------
+
+SS_VARS = ["a", "b", "c"]
+
+
+def ss_leaves():
+    out = []
+    for x in SS_VARS:
+        out.append(f"{x} = 3;")
+        for y in SS_VARS:
+            if y != x:
+                out.append(f"{x} = {y};")
+            for z in SS_VARS:
+                for op in ("+", "*"):
+                    if op == "*" and z < y:
+                        continue          # * is symmetric in the calculus
+                    out.append(f"{x} = {y} {op} {z};")
+    return out
+
+
+def small_scope_all():
+    """list of (label, src).  3 prefixes x 3 loop kinds x |leaves|^2 bodies, + for every body of the counted loop one trailing leaf sample"""
+    leaves = ss_leaves()
+    prefixes = ["", "b = 5;", "a = 5; b = 5;", "b = 5; c = 5; while (a > 0) { b = c + c; }"]
+    out = []
+    for pi, pre in enumerate(prefixes):
+        for kind in ("for", "while", "if"):
+            for i, s1 in enumerate(leaves):
+                for j, s2 in enumerate(leaves):
+                    if kind == "for":
+                        body = f"for (i = 0; i < n; i++) {{ {s1} {s2} }}"
+                    elif kind == "while":
+                        body = f"while (n > 0) {{ {s1} {s2} }}"
+                    else:
+                        body = f"while (n > 0) {{ if (n > 1) {{ {s1} }} else {{ {s2} }} }}"
+                    out.append((f"ss:{pi}:{kind}:{i}:{j}", f"int f(int a, int b, int c, int n, int i)\n{{\n  {pre}\n  {body}\n}}\n"))
+    return out
+
+
+def _ss_worker(args):
+    import e2e
+    label, src, cid = args
+    failing = []
+    outcome = {}
+    for fin in (False, True):
+        r = e2e.run_real(src, fin, False)
+        if r["exc"]:
+            failing.append({"what": f"raise: Analysis.run raised {r['exc']}", "sig": [cid, "raise", r["exc"][0], r["exc"][1]],
+                            "input": {"src": src, "opts": {"fin": fin, "strict": False}}, "expected": "a result", "observed": r["exc"]})
+            continue
+        d = r["funcs"].get("f")
+        if d is None or d["typed"] is None:
+            outcome["outside"] = outcome.get("outside", 0) + 1
+            continue
+        res = e2e.calculus_check(d, cid, failing, src, {"fin": fin, "strict": False}, what_prefix="[small scope] ")
+        outcome[res] = outcome.get(res, 0) + 1
+    for f in failing:
+        f.pop("apply", None)
+    return failing, outcome
+
+
+def small_scope_check(ctx, cid, n_quick=400):
+    """run the real tool on the small-scope programs (all of them in the thorough tier, a seeded sample otherwise) against the calculus"""
+    allp = small_scope_all()
+    progs = allp if ctx.thorough else ctx.rng.sample(allp, min(n_quick, len(allp)))
+    res = vlib.pool_map(_ss_worker, [(l, s, cid) for l, s in progs], chunksize=16)
+    failing, outcome = [], {}
+    for f, o in res:
+        failing += f
+        for k, v in o.items():
+            outcome[k] = outcome.get(k, 0) + v
+    # one report per signature is enough
+    seen, uniq = set(), []
+    for f in failing:
+        k = tuple(f["sig"])
+        if k not in seen:
+            seen.add(k)
+            uniq.append(f)
+    return uniq, {"programs": len(progs), "of": len(allp), "complete": len(progs) == len(allp), "outcomes": outcome}
